@@ -196,12 +196,33 @@ def enum_member(kind, value):
     key = (kind, value)
     m = _ENUMS.get(key)
     if m is None:
-        import hashlib as _hl
+        # the class name is a function of the value only, and it spells the value out: like a user's own
+        # Enum the class is importable by name (module __getattr__ below re-creates it on demand), so a URL
+        # that stores a member (encoded=True) can be pickled here and restored in another process
+        raw = repr(value).encode("utf-8", "surrogatepass").hex()
+        if len(raw) > 160:
+            import hashlib as _hl
 
-        tag = _hl.blake2b(repr(key).encode("utf-8", "surrogatepass"), digest_size=3).hexdigest()  # a function of the value only
-        cls = _enum.Enum("Mix%s_%s" % (kind.capitalize(), tag), {"ALT": value}, type=int if kind == "int" else str)
+            raw = "h" + _hl.blake2b(repr(key).encode("utf-8", "surrogatepass"), digest_size=6).hexdigest()
+        name = "Mix%s_%s" % (kind.capitalize(), raw)
+        cls = _enum.Enum(name, {"ALT": value}, type=int if kind == "int" else str, module=__name__, qualname=name)
+        globals()[name] = cls
         m = _ENUMS[key] = cls.ALT
     return m
+
+
+def __getattr__(name):
+    """PEP 562: unpickling a Mix* Enum member in a process that has not created its class yet."""
+    if name.startswith(("MixStr_", "MixInt_")) and not name.split("_", 1)[1].startswith("h"):
+        kind = "str" if name.startswith("MixStr_") else "int"
+        try:
+            import ast as _ast
+
+            value = _ast.literal_eval(bytes.fromhex(name.split("_", 1)[1]).decode("utf-8", "surrogatepass"))
+        except Exception:  # noqa
+            raise AttributeError(name)
+        return type(enum_member(kind, value))
+    raise AttributeError(name)
 
 
 class IntSub(int):
@@ -342,6 +363,12 @@ def _plain(x):
     if isinstance(x, str) and type(x) is not str:
         return str.__str__(x)
     return x
+
+
+def shallow_raw(u):
+    """The five stored parts exactly as stored (the very objects): for re-building an equal URL inside one
+    process, never for results that leave the process."""
+    return tuple(object.__getattribute__(u, s) for s in SLOTS5)
 
 
 def shallow(u):
@@ -689,6 +716,20 @@ def _dispatch(name, op, slots, args, kwargs):
         # the *caller* changes a container it owns (and may have passed to yarl earlier)
         c = _operand(slots, op.get("on"))
         how = args[0]
+        if how == "nested":
+            # change a list stored *inside* the container in place (no method of the container is called)
+            vals = list(c.values()) if isinstance(c, (multidict.MultiDict, dict)) else [kv[1] for kv in c if isinstance(kv, tuple) and len(kv) == 2]
+            tgt = next((v for v in vals if isinstance(v, list)), None)
+            if tgt is not None:
+                tgt.append(args[2])
+                return None
+            if isinstance(c, multidict.MultiDict):
+                c.add(args[1], [args[2]])
+            elif isinstance(c, dict):
+                c[args[1]] = [args[2]]
+            else:
+                c.append((args[1], [args[2]]))
+            return None
         if isinstance(c, (multidict.MultiDict,)):
             if how == "add":
                 c.add(args[1], args[2])
@@ -817,7 +858,7 @@ def _dispatch(name, op, slots, args, kwargs):
     if name == "legacy_setstate":
         # what unpickling a pickle written by an old yarl (default-style state) does
         obj = URL.__new__(URL)
-        obj.__setstate__((None, {"_val": SplitResult(*shallow(u)), "_cache": {}}))
+        obj.__setstate__((None, {"_val": SplitResult(*shallow_raw(u)), "_cache": {}}))
         return obj
     if name == "query_mutate":
         # try to mutate through the proxy / the returned containers; must fail or have no effect on u
@@ -1129,7 +1170,7 @@ class Atoms:
         return {"$": "strsub", "v": rng.choice(self.qstrs)}
 
 
-def gen_constructor(rng, at, live):
+def _gen_constructor(rng, at, live):
     r = rng.random()
     if r < 0.55:
         s = at.url_string(rng)
@@ -1185,7 +1226,7 @@ def gen_constructor(rng, at, live):
     return {"op": "build", "args": [], "kwargs": kw}
 
 
-def gen_derivation(rng, at, live, slots=None):
+def _gen_derivation(rng, at, live, slots=None):
     on = rng.choice(live)
     if rng.random() < 0.05:
         # another spelling of an equal value: '' vs '/' behind an authority, default port written out
@@ -1270,6 +1311,36 @@ def gen_derivation(rng, at, live, slots=None):
     if r < 0.96:
         return {"op": "relative", "on": on, "args": []}
     return {"op": "parent", "on": on, "args": []}
+
+
+def exoticise(rng, op, p=0.05):
+    """Now and then one plain-str argument arrives as an instance of a str *subclass* -- a bare subclass,
+    multidict.istr, or a (str, Enum) member whose str()/format() differ from its content -- first-hand,
+    not only as a variant of an earlier call: a str subclass is accepted wherever str is, and with
+    encoded=True the very object is stored."""
+    if op.get("op") not in URLISH_OPS or rng.random() >= p:
+        return op
+    acc = []
+    if isinstance(op.get("args"), list):
+        _leaves(op["args"], ["args"], acc)
+    if isinstance(op.get("kwargs"), dict):
+        _leaves(op["kwargs"], ["kwargs"], acc)
+    acc = [(p_, v_) for p_, v_ in acc if len(p_) >= 2 and isinstance(v_, str)]
+    if not acc:
+        return op
+    path, val = acc[rng.randrange(len(acc))]
+    _set_path(op, path, {"$": rng.choice(["strenum", "strenum", "strsub", "istr"]), "v": val})
+    if rng.random() < 0.5 and op["op"] in ("new", "build", "with_path", "joinpath") and isinstance(op.get("kwargs"), dict):
+        op["kwargs"]["encoded"] = True
+    return op
+
+
+def gen_constructor(rng, at, live):
+    return exoticise(rng, _gen_constructor(rng, at, live))
+
+
+def gen_derivation(rng, at, live, slots=None):
+    return exoticise(rng, _gen_derivation(rng, at, live, slots))
 
 
 def equal_partners(slots, i, respelled=False):
@@ -1363,11 +1434,15 @@ def gen_mk(rng, at):
         spec = {"$": "dict", "v": [[k, rng.choice(at.qvals)] for k in ks]}
     else:
         spec = {"$": "pairs", "as": "list", "v": [[rng.choice(at.qkeys), rng.choice(at.qvals)] for _ in range(n)]}
+    if rng.random() < 0.3:
+        # a list value (expanded into repeated keys by yarl): the caller can later change it *in place*,
+        # without touching the container's own API
+        spec["v"][rng.randrange(len(spec["v"]))][1] = {"$": "list", "v": [rng.choice(at.qvals) for _ in range(rng.randint(0, 2))]}
     return {"op": "mk", "args": [spec]}
 
 
 def gen_mutate(rng, at, containers):
-    return {"op": "mutate", "on": rng.choice(containers), "args": [rng.choice(["add", "set", "clear", "pop", "add"]), rng.choice(at.qkeys), rng.choice(at.qvals)]}
+    return {"op": "mutate", "on": rng.choice(containers), "args": [rng.choice(["add", "set", "clear", "pop", "add", "nested", "nested"]), rng.choice(at.qkeys), rng.choice(at.qvals)]}
 
 
 def gen_query_op_with_ref(rng, live, containers, slots):
@@ -1593,9 +1668,11 @@ def decouple_operands(op, slots):
         if URL is None or type(u) is not URL:
             return idx
         try:
-            memo = object.__getattribute__(u, "_cache")
-            if shallow(u)[1] == "" and memo.get("raw_host") == "":
-                return idx  # open finding F1b (C09): the twin of such a URL reads host None instead of ''
+            if shallow(u)[1] == "" and u.raw_host == "":
+                # open finding F1b (C09): stored netloc empty, yet the object says host '' where its twin says
+                # None.  (Decided by behaviour, not by memo key names; the read touches only an object that is
+                # either kept as it is -- the value was pre-filled -- or replaced by its twin.)
+                return idx
             t = _p.loads(_p.dumps(u))
         except Exception:  # noqa
             return idx
